@@ -50,6 +50,7 @@ var activeCaseTable = []struct {
 	{"validateMandatoryWithKeys", []string{"active"}, "mandatory children of the active case"},
 	{"NavigateSdcpbPath", []string{"active"}, "leafref / must navigation sees the resulting config"},
 	{"Navigate", []string{"active"}, "leafref / must navigation sees the resulting config"},
+	{"tryLoading", []string{"by-name"}, "hands back the child it just loaded from the running store (lazy loading during navigation)"},
 	{"GetDeletes", []string{}, "dispatcher"},
 	{"getRegularDeletes", []string{"all", "by-name"}, "children of a case that just became inactive must be visited: their deletes are the point"},
 	{"getAggregatedDeletes", []string{"all", "by-name"}, "same as getRegularDeletes"},
@@ -301,7 +302,7 @@ func c08(w *core.World, r *core.Report) {
 	r.Rule("BRANCH-WHOLE", 2, "GetBranchesHighesPrecedence answers for the path itself AND everything below it: every return comes after the walk over the whole keys index (no early answer from an exact hit), the loop accepts a key equal to the joined path (an equality test of the range key with the join result exists) as well as keys below it. Presence containers are stored at their own path while other intents may hold values below them.")
 	if f := w.Func("pkg/tree", "TreeCacheClientImpl", "GetBranchesHighesPrecedence"); f != nil {
 		var rng *ssa.Range
-		for _, b := range f.Blocks {
+		for _, b := range core.Blocks(f) {
 			for _, in := range b.Instrs {
 				if x, ok := in.(*ssa.Range); ok && core.FieldOf(x.X) == "tree.TreeCacheClientImpl.intendedStoreIndex" {
 					rng = x
@@ -315,7 +316,7 @@ func c08(w *core.World, r *core.Report) {
 				r.Check(core.InstrBefore(rng, ret), "BRANCH-WHOLE", core.Site(f, "return#%d after the index walk", i), w.InstrPos(ret), "an answer given before the whole index was walked ignores contributions below (or at) the path")
 			}
 			eq := false
-			for _, b := range f.Blocks {
+			for _, b := range core.Blocks(f) {
 				for _, in := range b.Instrs {
 					bo, ok := in.(*ssa.BinOp)
 					if !ok || bo.Op != token.EQL {
@@ -357,7 +358,7 @@ func c08(w *core.World, r *core.Report) {
 		for _, c := range core.CallsTo(reg, "tree.childMap.GetEntry") {
 			nEntry++
 			appended := false
-			for _, b := range reg.Blocks {
+			for _, b := range core.Blocks(reg) {
 				for _, in := range b.Instrs {
 					st, ok := in.(*ssa.Store)
 					if !ok {
